@@ -57,6 +57,9 @@ ENTRIES = [
     M("F-mc-split-traced-indices", ["C15", "C16"], ["C15.2", "C16.6"], (DMC, "        split_idx = [sum(action_dims[: i + 1]) for i in range(len(action_dims) - 1)]", "        split_idx = jnp.cumsum(jnp.asarray(action_dims[:-1]))")),
     V("F-v-mc-split-numpy", "C15", (DMC, "        split_idx = [sum(action_dims[: i + 1]) for i in range(len(action_dims) - 1)]", "        import numpy as np\n        split_idx = np.cumsum(action_dims[:-1])")),
     M("F-box-space-field-dropped", "C14", "C14.4", ("lerax/space/discrete.py", "        self.n = ", "        self.m = ")),
+    M("P-timelimit-mutable-default-counter", ["C02", "C12"], ["C02.3", "C12.1"], ("lerax/wrapper/misc.py", "    def truncate(self, state: TimeLimitState[StateType]) -> Bool[Array, \"\"]:\n", "    def truncate(self, state: TimeLimitState[StateType], _seen=[]) -> Bool[Array, \"\"]:\n        _seen.append(1)\n")),
+    M("P-walker-terminal-python-and", ["C02", "C12"], ["C02.3", "C12.1"], ("lerax/env/mujoco/hopper.py", "        if not self.terminate_when_unhealthy:\n            return jnp.array(False)\n", "        if not self.terminate_when_unhealthy and not self.is_healthy(state.sim_state):\n            return jnp.array(False)\n")),
+    M("P-learn-hash-of-string-key", "C11", "C11.1", ("lerax/algorithm/base_algorithm.py", "        callback = self.consolidate_callbacks(callback)\n", "        callback = self.consolidate_callbacks(callback)\n        key = jr.fold_in(key, hash(type(self).__name__) % 1000)\n")),
     M("C03-disc-nomask", "C03", "C03.3", (RB, "discounts = gamma * gae_lambda * next_non_terminals", "discounts = gamma * gae_lambda")),
     M("C03-boot-nomask", "C03", "C03.3", (RB, "gamma * next_values * next_non_terminals - self.values", "gamma * next_values - self.values")),
     M("C03-forward", "C03", "C03.1", (RB, "(deltas, discounts), reverse=True", "(deltas, discounts), reverse=False")),
